@@ -31,10 +31,11 @@ ALL_PROPS = ['C%02d' % i for i in range(1, 21)]
 # default attribution of a failure that does not hit a labelled clause (overflow, index, callee precondition
 # from vstd, unreachable panic, termination) inside a function without an explicit @safety line
 DEFAULT_SAFETY = [
-    (r'::reveal$', ['C13', 'C01', 'C02']),
-    (r'::hide$', ['C12', 'C07']),
-    (r'(::try_read\w*|::decode_avp|::read)$', ['C01', 'C02']),
-    (r'(::write|::get_length|::make_flags_and_length)$', ['C06', 'C07', 'C09']),
+    (r'::reveal$', {'props': ['C13'], 'secondary': ['C01', 'C02']}),
+    (r'::hide$', {'props': ['C12'], 'secondary': ['C07']}),
+    (r'(::try_read\w*|::decode_avp|::read)$', {'props': ['C01'], 'secondary': []}),
+    (r'(::write|::make_flags_and_length)$', {'props': ['C06'], 'secondary': ['C07', 'C09']}),
+    (r'(::get_length)$', {'props': ['C07'], 'secondary': ['C06']}),
 ]
 
 C19_FORBIDDEN = re.compile(r'std::io|std::fs|std::env|std::process|std::net|std::time|std::thread|std::sync|'
@@ -49,11 +50,9 @@ def sh(cmd, cwd=None, timeout=None, env=None):
 
 def run_verus(image_path, workdir, seed=None, rlimit=None, threads=None):
     cmd = ['verus', os.path.basename(image_path), '--triggers-mode', 'silent', '--output-json', '--time',
-           '--error-format=json', '--multiple-errors', '6', '--no-report-long-running']
+           '--error-format=json', '--multiple-errors', '6', '--no-report-long-running', '-V', 'spinoff-all', '--rlimit', '20']
     if seed is not None:
         cmd += ['--smt-option', 'smt.random_seed=%d' % seed]
-    if rlimit:
-        cmd += ['--rlimit', str(rlimit)]
     if threads:
         cmd += ['--num-threads', str(threads)]
     rc, out, err, dt = sh(cmd, cwd=workdir, timeout=3000)
@@ -196,13 +195,22 @@ def build_fnkey_lookup(image_text, maps):
 
 
 def default_safety(fnkey, contracts):
+    """{'props': primaries, 'secondary': [...]} for a failure in `fnkey` that hits no labelled clause."""
     c = contracts.get(fnkey)
     if c and c.get('safety'):
         return c['safety']
     for pat, props in DEFAULT_SAFETY:
-        if re.search(pat, fnkey):
+        if re.search(pat, fnkey or ''):
             return props
-    return []
+    return {'props': [], 'secondary': []}
+
+
+def role_of(p, lab):
+    if p in lab.get('props', []):
+        return 'primary'
+    if p in lab.get('secondary', []):
+        return 'secondary'
+    return None
 
 
 def scan_assumptions(image_text):
@@ -236,6 +244,45 @@ def external_body_fns(image_text, lookup):
                     res.append(k)
                     break
     return sorted(set(res))
+
+
+FRAME_FORBIDDEN = re.compile(
+    r'\b(print|println|eprint|eprintln|dbg|thread_local|lazy_static)\s*!|\bstatic\s+mut\b|\bstd::(io|fs|env|process|net|time|thread|sync|cell|os)\b|'
+    r'\bcore::(sync|cell)\b|\b(io::(stdout|stderr|stdin)|Stdout|Stderr)\b|\b(Cell|RefCell|UnsafeCell|OnceCell|OnceLock|LazyLock|LazyCell|Mutex|RwLock|Condvar|Lazy)\b|'
+    r'\bAtomic[A-Z]\w*\b|\b(SystemTime|Instant)\b|\b(rand|getrandom|once_cell|libc)::|\bextern\s+"C"|\basm!')
+STATIC_ALLOWED = {'MESSAGE_CODE_TO_TYPE'}
+
+
+def frame_scan(repo):
+    """Syntactic frame check (C19) over the non-test sources of the working tree: no output, clock, environment,
+    file, thread or shared-state construct, and no static item other than the immutable phf table."""
+    hits = []
+    files = 0
+    src = os.path.join(repo, 'src')
+    for root, dirs, fs in os.walk(src):
+        for fn in sorted(fs):
+            if not fn.endswith('.rs'):
+                continue
+            path = os.path.join(root, fn)
+            rel = os.path.relpath(path, repo)
+            if fn == 'tests.rs' or '/tests/' in '/' + rel:
+                continue
+            files += 1
+            text = open(path).read()
+            b, _ = rustscan.blank(text)
+            # drop #[cfg(test)] mod x { .. } blocks
+            for m in re.finditer(r'#\[cfg\(test\)\]\s*(pub\s+)?mod\s+\w+\s*\{', b):
+                o = m.end() - 1
+                c = rustscan.match_bracket(b, o)
+                b = b[:m.start()] + re.sub(r'[^\n]', ' ', b[m.start():c + 1]) + b[c + 1:]
+            for m in FRAME_FORBIDDEN.finditer(b):
+                ln = b.count('\n', 0, m.start()) + 1
+                hits.append({'file': rel, 'line': ln, 'what': m.group(0).strip(), 'text': text.split('\n')[ln - 1].strip()[:160]})
+            for m in re.finditer(r'(?m)^\s*(pub(\([a-z]+\))?\s+)?static\s+(mut\s+)?(\w+)', b):
+                if m.group(4) not in STATIC_ALLOWED:
+                    ln = b.count('\n', 0, m.start()) + 1
+                    hits.append({'file': rel, 'line': ln, 'what': 'static item ' + m.group(4), 'text': text.split('\n')[ln - 1].strip()[:160]})
+    return files, hits
 
 
 def load_known_findings():
@@ -324,6 +371,7 @@ def decide(props, a, seed, workdir, t0):
         seeds = [jobs[k].result() for k in sorted(jobs) if k.startswith('seed')]
         kr = kani_future.result() if kani_future else {'harnesses': [], 'build_error': None, 'wall': 0}
     fails = classify(vr, maps, image_lines, lookup)
+    frame_files, frame_hits = frame_scan(REPO)
     if os.environ.get('VF_DEV'):
         for f in fails:
             names = [maps['labels'][li]['label']['name'] for li in f['labels']]
@@ -332,11 +380,16 @@ def decide(props, a, seed, workdir, t0):
     if vr['json'] is None or (frontend and not vr['json'].get('verification-results', {}).get('verified')):
         # the image did not reach the proof stage
         c19 = [f for f in frontend if C19_FORBIDDEN.search(f['message'] + f['rendered'])]
+        if frame_hits and not c19:
+            h = frame_hits[0]
+            c19 = [{'message': 'frame scan: %s at %s:%d' % (h['what'], h['file'], h['line']), 'rendered': json.dumps(frame_hits[:10], indent=1),
+                    'fn': None, 'labels': [], 'lines': []}]
         rc = 2
         for p in props:
             if p == 'C19' and c19:
-                path = witness.write_replay(p, 'closed-world', c19[0], None, vr, note='Verus closed world: call to a function outside the allow-list on a codec path')
-                print('VIOLATION property=C19 replay=%s no-failing-input-found' % path)
+                w = witness.search('C19', ['closed-world'], c19[0], REPO)
+                path = witness.write_replay(p, ['C19:closed-world'], c19[0], w, vr, note='Verus closed world / frame scan: a construct outside the allow-list (output, clock, environment, shared state) on a codec path')
+                print('VIOLATION property=C19 replay=%s%s' % (path, '' if (w and w.get('failing_input')) else ' no-failing-input-found'))
                 write_evidence(p, a.tier, seed, t0, None, violations=1, inconclusive=None, note=c19[0]['message'])
                 rc = 1
             else:
@@ -355,7 +408,8 @@ def decide(props, a, seed, workdir, t0):
             fb[f['function']] = f
             smt_total += f.get('time-micros', f.get('time', 0)) / 1e6 if 'time-micros' in f else f.get('time', 0) / 1e3
     # ---- 4. canary: every contracted function must FAIL `ensures false` -------------------------------
-    canary_info = {'checked': 0, 'failed_as_expected': 0, 'vacuous': []}
+    canary_info = {'checked': 0, 'failed_as_expected': 0, 'vacuous': [], 'frame_files': frame_files, 'frame_hits': frame_hits,
+                   'exec_fns_verified': None}
     if cr is not None and cr['json'] is not None:
         cf_fails = classify(cr, cmaps, cimage.split('\n'), clookup)
         failed_fns = set()
@@ -385,8 +439,12 @@ def decide(props, a, seed, workdir, t0):
     return rc_all
 
 
+def label_names(maps, f):
+    return [maps['labels'][li]['label']['name'] for li in f.get('labels', [])] or ['safety:' + (f.get('fn') or '?')]
+
+
 def labels_for(maps, p):
-    return [(i, l) for i, l in enumerate(maps['labels']) if p in l['label']['props']]
+    return [(i, l) for i, l in enumerate(maps['labels']) if role_of(p, l['label'])]
 
 
 def decide_one(p, a, seed, t0, vr, cr, seeds, kr, fails, maps, image, lookup, contracts, known, assumptions, ext,
@@ -394,27 +452,50 @@ def decide_one(p, a, seed, t0, vr, cr, seeds, kr, fails, maps, image, lookup, co
     my_labels = labels_for(maps, p)
     my_label_idx = {i for i, _ in my_labels}
     # functions whose safety obligation belongs to p
-    my_fns = sorted(k for k in maps['fn_index'] if p in default_safety(k, contracts) and k not in ext
+    my_fns = sorted(k for k in maps['fn_index'] if role_of(p, default_safety(k, contracts)) and k not in ext
                     and not k.split('::')[-2:-1] == ['Reader'] and not k.split('::')[-2:-1] == ['Writer'])
-    violations = []
+    violations = []      # primary role (or secondary with a witness)
+    candidates = []      # secondary role: decided by a concrete witness
     inconclusive = []
+    # labels that failed, per function (for `~dep` suppression)
+    failed_names = {}
     for f in fails:
-        props_hit = set()
         for li in f['labels']:
-            props_hit.update(maps['labels'][li]['label']['props'])
-        if not f['labels'] and f['fn']:
-            props_hit.update(default_safety(f['fn'], contracts))
-        elif f['labels'] and f['fn'] and all(maps['labels'][li]['fn'] != f['fn'] for li in f['labels']):
-            # a callee's labelled precondition failed at a call site in f['fn']
-            pass
-        if p not in props_hit:
+            failed_names.setdefault(maps['labels'][li]['fn'], set()).add(maps['labels'][li]['label']['name'])
+            failed_names.setdefault(f['fn'], set()).add(maps['labels'][li]['label']['name'])
+    for f in fails:
+        role = None
+        if f['labels']:
+            for li in f['labels']:
+                lab = maps['labels'][li]['label']
+                owner = maps['labels'][li]['fn']
+                deps = lab.get('deps', [])
+                if any(d in failed_names.get(owner, ()) or d in failed_names.get(f['fn'], ()) for d in deps):
+                    continue        # explained by a stronger clause of the same function
+                r = role_of(p, lab)
+                if r == 'primary' or (r == 'secondary' and role is None):
+                    role = r
+        elif f['fn']:
+            role = role_of(p, default_safety(f['fn'], contracts))
+        if role is None:
             continue
-        if f['kind'] == 'rlimit':
+        if f['kind'] in ('rlimit', 'frontend'):
             inconclusive.append(f)
-        elif f['kind'] == 'frontend':
-            inconclusive.append(f)
-        else:
+        elif role == 'primary':
             violations.append(f)
+        else:
+            candidates.append(f)
+    if candidates and not violations:
+        # one witness search decides all secondary candidates of this property
+        w = witness.search(p, [n for f in candidates for n in label_names(maps, f)], candidates[0], REPO)
+        if w and w.get('failing_input'):
+            for f in candidates:
+                f['witness'] = w
+            violations += candidates
+        else:
+            for f in candidates:
+                f['undecided'] = True
+            inconclusive += candidates
     # seeds (thorough): a failure under another seed that is not a failure under the default seed is a
     # proof-robustness warning, not an alarm
     unstable = []
@@ -426,20 +507,42 @@ def decide_one(p, a, seed, t0, vr, cr, seeds, kr, fails, maps, image, lookup, co
             if f['kind'] == 'verification' and not any(g['message'] == f['message'] and g['lines'] == f['lines'] for g in fails):
                 unstable.append(f['rendered'].split('\n')[0] + ' @' + str(f['lines'][:2]))
     # Kani
-    kani_mine = [h for h in kr['harnesses'] if p in h['props']]
-    kani_viol = [h for h in kani_mine if h['status'] == 'FAILED']
+    kani_mine = [h for h in kr['harnesses'] if p in h['props'] or p in h.get('secondary', [])]
+    kani_viol = [h for h in kani_mine if h['status'] == 'FAILED' and p in h['props']]
+    kani_cand = [h for h in kani_mine if h['status'] == 'FAILED' and p not in h['props']]
+    if kani_cand and not kani_viol and not violations:
+        w = witness.search(p, ['kani:' + h['name'] for h in kani_cand], {'message': 'Kani harness failed', 'fn': kani_cand[0].get('fn')}, REPO)
+        if w and w.get('failing_input'):
+            for h in kani_cand:
+                h['witness'] = w
+            kani_viol += kani_cand
+        else:
+            inconclusive.append({'kind': 'kani', 'undecided': True, 'labels': [], 'fn': kani_cand[0].get('fn'),
+                                 'message': 'Kani harness %s failed' % kani_cand[0]['name'], 'rendered': 'Kani harness %s failed' % kani_cand[0]['name'], 'lines': []})
     kani_inc = [h for h in kani_mine if h['status'] not in ('SUCCESSFUL', 'FAILED')]
     if kr.get('build_error') and kani_run.harnesses_for([p], a.tier):
         kani_inc.append({'name': '<build>', 'status': 'BUILD-ERROR', 'output': kr['build_error'], 'props': [p], 'complete': False})
     # vacuity: canary
-    vac = [k for k in canary_info['vacuous'] if p in default_safety(k, contracts) or any(l['fn'] == k for _, l in my_labels)]
-    n_label_pre = len(my_labels)
+    vac = [k for k in canary_info['vacuous'] if role_of(p, default_safety(k, contracts)) or any(l['fn'] == k for _, l in my_labels)]
+    extra_obl = 0
+    extra_dis = 0
+    if p == 'C19':
+        # (1) closed world: the image reached the proof stage, i.e. no verified function calls anything without a contract;
+        # (2) frame scan: one obligation per non-test source file
+        extra_obl = 1 + canary_info['frame_files']
+        bad_files = {h['file'] for h in canary_info['frame_hits']}
+        extra_dis = 1 + canary_info['frame_files'] - len(bad_files)
+        for h in canary_info['frame_hits'][:1]:
+            violations.append({'kind': 'verification', 'message': 'frame scan: %s at %s:%d' % (h['what'], h['file'], h['line']),
+                               'rendered': json.dumps(canary_info['frame_hits'][:10], indent=1), 'fn': None, 'labels': [], 'lines': [],
+                               'names': ['C19:frame:%s:%s' % (h['file'], h['what'])]})
+    n_label_pre = len(my_labels) + extra_obl
     # ---- report -------------------------------------------------------------------------------------
     printed_violation = False
     known_hits = []
     new_viol = []
     for f in violations:
-        names = [maps['labels'][li]['label']['name'] for li in f['labels']] or ['safety:' + (f['fn'] or '?')]
+        names = f.get('names') or [maps['labels'][li]['label']['name'] for li in f['labels']] or ['safety:' + (f['fn'] or '?')]
         kf = [k for k in known if k['prop'] == p and any(k['match'] == n or re.fullmatch(k['match'].replace('*', '.*'), n) for n in names)]
         if kf:
             known_hits.append((kf[0], names))
@@ -450,7 +553,7 @@ def decide_one(p, a, seed, t0, vr, cr, seeds, kr, fails, maps, image, lookup, co
     rc = 0
     if new_viol or kani_viol:
         for f, names in new_viol[:1]:
-            w = witness.search(p, names, f, REPO)
+            w = f.get('witness') or witness.search(p, names, f, REPO)
             path = witness.write_replay(p, names, f, w, vr)
             tail = '' if (w and w.get('failing_input')) else ' no-failing-input-found'
             print('VIOLATION property=%s replay=%s%s' % (p, path, tail))
@@ -458,7 +561,7 @@ def decide_one(p, a, seed, t0, vr, cr, seeds, kr, fails, maps, image, lookup, co
         for f, names in new_viol[1:]:
             print('  also failing: %s  [%s]' % (','.join(names), f['message']))
         for h in kani_viol:
-            w = witness.from_kani(p, h, REPO)
+            w = h.get('witness') or witness.from_kani(p, h, REPO)
             path = witness.write_replay(p, ['kani:' + h['name']], {'message': 'Kani harness failed', 'rendered': h['output'][-4000:], 'fn': h.get('fn'), 'labels': [], 'lines': []}, w, None)
             tail = '' if (w and w.get('failing_input')) else ' no-failing-input-found'
             if not printed_violation:
@@ -469,7 +572,10 @@ def decide_one(p, a, seed, t0, vr, cr, seeds, kr, fails, maps, image, lookup, co
         rc = 1
     elif inconclusive or kani_inc or vac or (n_label_pre + len(my_fns) + len(kani_mine) == 0):
         for f in inconclusive[:5]:
-            print('INCONCLUSIVE: property=%s %s: %s' % (p, f['kind'], f['rendered'].split('\n')[0][:160]))
+            if f.get('undecided'):
+                print('INCONCLUSIVE: property=%s obligation %s failed (%s); this property is only possibly affected and the bounded witness search found no failing input for it' % (p, ','.join(label_names(maps, f)), f['message']))
+            else:
+                print('INCONCLUSIVE: property=%s %s: %s' % (p, f['kind'], f['rendered'].split('\n')[0][:160]))
         for h in kani_inc[:5]:
             print('INCONCLUSIVE: property=%s kani harness %s: %s' % (p, h['name'], h['status']))
         if n_label_pre + len(my_fns) + len(kani_mine) == 0:
@@ -479,14 +585,16 @@ def decide_one(p, a, seed, t0, vr, cr, seeds, kr, fails, maps, image, lookup, co
         rc = 2
     # ---- evidence -------------------------------------------------------------------------------------
     failed_label_idx = {li for f in violations + inconclusive for li in f['labels']}
+    failed_pairs = {(maps['labels'][li]['fn'], maps['labels'][li]['label']['name']) for li in failed_label_idx}
+    pairs = sorted({(l['fn'], l['label']['name']) for _, l in my_labels})
     failed_fns = {f['fn'] for f in violations + inconclusive if not f['labels'] and f['fn']}
-    n_label = len(my_labels)
+    n_label = len(pairs)
     n_fn = len(my_fns)
     kani_complete = [h for h in kani_mine if h['complete']]
     kani_bounded = [h for h in kani_mine if not h['complete']]
-    obligations = n_label + n_fn + len(kani_complete)
-    discharged = (len([i for i in my_label_idx if i not in failed_label_idx]) + len([k for k in my_fns if k not in failed_fns])
-                  + len([h for h in kani_complete if h['status'] == 'SUCCESSFUL']))
+    obligations = n_label + n_fn + len(kani_complete) + extra_obl
+    discharged = (len([pr for pr in pairs if pr not in failed_pairs]) + len([k for k in my_fns if k not in failed_fns])
+                  + len([h for h in kani_complete if h['status'] == 'SUCCESSFUL']) + extra_dis)
     samples = []
     for i, l in my_labels[:3] + my_labels[len(my_labels) // 2: len(my_labels) // 2 + 2]:
         lines = [ln for ln, li in maps['linemap'].items() if li == i]
